@@ -18,7 +18,7 @@ from srctools.math import Vec, FrozenVec, Angle, FrozenAngle, Matrix, FrozenMatr
 
 PROP = 'C05'
 LEVEL = 'exploration'
-RUNS = {'quick': 40000, 'thorough': 3000000}
+RUNS = {'quick': 40000, 'thorough': 15000000}
 BATCH = {'quick': 500, 'thorough': 5000}
 BUDGET_S = {'quick': 60.0, 'thorough': 1500.0}
 RULE = ('one run = one seeded history (4-40 operations) over a pool of up to 12 Vec / FrozenVec / Angle / FrozenAngle / Matrix / '
